@@ -23,9 +23,9 @@ theorem witness_invariants : slipInvariants Dyz one3 = fun s => if s = 2 then 1 
 
 /-- **regression witness of the repaired defect** (the input on which the unrepaired code raised
 ZeroDivisionError / returned NaN): every slip key is zero, the model of the repaired code takes the
-no-slip branch and returns zero rates. -/
+no-slip branch: zero strain energy, and the grain only follows the rigid-body rotation of the flow. -/
 theorem witness_no_slip (p n lam : ℝ) :
-    rotationAndStrainCore 0 crssC one3 Dyz Lyz p n lam = (zero3, 0) := by
+    rotationAndStrainCore 0 crssC one3 Dyz Lyz p n lam = (noSlipRotation one3 Lyz, 0) := by
   have hk : (fun s => Rabs (divByTau (slipInvariants Dyz one3 s) (crssC s))) = fun _ => 0 := by
     funext s
     rw [witness_invariants]
